@@ -29,6 +29,7 @@ fn main() {
         }
         Some("replay") if args.len() >= 3 => replay_outer(Path::new(&args[2])),
         Some("replay-inner") if args.len() >= 3 => replay_inner(Path::new(&args[2])),
+        Some("emit-corpus") if args.len() >= 5 => emit_corpus(&args[2], Path::new(&args[3]), args[4].parse().unwrap_or(100)),
         _ => {
             eprintln!("usage: fv run <Cxx> <quick|thorough> | fv replay <file>");
             2
@@ -594,4 +595,68 @@ fn replay_outer(path: &Path) -> i32 {
             2
         }
     }
+}
+
+/// Writes a seed corpus for a fuzz target: encoded generated cases for `parse` (plus the
+/// repository's test fixtures), pseudo-random operation scripts for the two ops targets.
+fn emit_corpus(target: &str, dir: &Path, count: usize) -> i32 {
+    use flussab_verif::fuzzdec;
+    use flussab_verif::inputs::{input_strategy, repo_seeds, Input};
+    use flussab_verif::source::{feed_strategy, Feed};
+    use proptest::strategy::{Strategy, ValueTree};
+    use proptest::test_runner::{Config, RngSeed, TestRunner};
+    let _ = fs::create_dir_all(dir);
+    let mut runner = TestRunner::new(Config {
+        rng_seed: RngSeed::Fixed(engine::DEFAULT_SEED),
+        failure_persistence: None,
+        ..Config::default()
+    });
+    let mut n = 0;
+    let mut put = |bytes: &[u8]| {
+        let _ = fs::write(dir.join(format!("seed-{:05}", n)), bytes);
+        n += 1;
+    };
+    match target {
+        "parse" => {
+            for p in flussab_verif::drivers::ALL_PARSERS {
+                for (i, s) in repo_seeds(p).iter().enumerate() {
+                    let input = Input {
+                        spec: flussab_verif::drivers::Spec {
+                            parser: p,
+                            lit: (i % 5) as u8,
+                            flag: false,
+                        },
+                        bytes: s.to_vec(),
+                        class: "repo-seed".into(),
+                    };
+                    put(&fuzzdec::encode_parse(&input, &Feed::one_shot()));
+                }
+            }
+            let strat = (input_strategy(6, true), feed_strategy());
+            for _ in 0..count {
+                if let Ok(t) = strat.new_tree(&mut runner) {
+                    let (input, feed) = t.current();
+                    if input.bytes.len() < 600 {
+                        put(&fuzzdec::encode_parse(&input, &feed));
+                    }
+                }
+            }
+        }
+        _ => {
+            let mut x: u64 = 0x1234_5678_9abc_def1;
+            for i in 0..count {
+                let len = 16 + (i * 7) % 240;
+                let mut b = Vec::with_capacity(len);
+                for _ in 0..len {
+                    x ^= x << 13;
+                    x ^= x >> 7;
+                    x ^= x << 17;
+                    b.push((x >> 24) as u8);
+                }
+                put(&b);
+            }
+        }
+    }
+    println!("{n} corpus files written to {}", dir.display());
+    0
 }
